@@ -31,6 +31,7 @@ PROP = {  # commit subject fragment -> (property, id)
  "tuple variant without fields": ("C19", "F30"),
  "with utf8_lossy, from_slice into a Value": ("C09", "F31"),
  "Display of an OwnedLazyValue": ("C13", "F32"),
+ "to_lazyvalue of true, false or null": ("C13", "F33"),
 }
 KNOWN = []
 out = []
